@@ -92,7 +92,9 @@ partial def loop (h : IO.FS.Stream) (a : RunSt) : IO RunSt := do
     let impl := " ".intercalate res
     if out == impl then loop h { a with w := w', ok := a.ok + 1 }
     else do
-      if a.shown < 50 then
+      if (← IO.getEnv "H4MODEL_FULL").isSome then
+        IO.println s!"DIFF case={a.caseNo} line={a.lineNo} engine={engine} op={" ".intercalate args} model={out} impl={impl}"
+      else if a.shown < 50 then
         IO.println s!"DIFF case={a.caseNo} line={a.lineNo} engine={engine} op={" ".intercalate (args.map fun s => if s.length > 80 then (s.take 80).toString ++ "..." else s)} model={if out.length > 200 then (out.take 200).toString ++ "..." else out} impl={if impl.length > 200 then (impl.take 200).toString ++ "..." else impl}"
       loop h { a with w := w', diff := a.diff + 1, shown := a.shown + 1 }
   | _ => loop h a
